@@ -130,7 +130,14 @@ def regenerate(ctx):
           "Definition json_kind_decl (p : prim) : N :=", "  match p with"]
     for a in ORDER:
         L.append("  | %s => %s" % (COQ_PRIM[a], t["json_kind"][a]))
-    L += ["  end.", "", "Definition max_import_recursion_depth : nat := %d." % t["max_import_recursion_depth"], ""]
+    ty = open(os.path.join(REPO, "tooling/pkg/dsl/types.go")).read()
+    consts = dict(re.findall(r'^\t(\w+)\s+= "(\w+)"$', ty, re.M))
+    aliases = [(a, consts[c]) for a, c in re.findall(r'"(\w+)="\+(\w+),', ty)]
+    if not aliases:
+        raise RuntimeError("gentables: cannot find the primitive alias table in types.go")
+    L += ["  end.", "", "(* types.go:primitiveTypes aliases *)", "Definition prim_aliases : list (String.string * prim) :=",
+          "  [" + "; ".join('("%s"%%string, %s)' % (a, COQ_PRIM[p]) for a, p in aliases) + "].", ""]
+    L += ["Definition max_import_recursion_depth : nat := %d." % t["max_import_recursion_depth"], ""]
     # constants of the runtimes (regex over the shipped files)
     cs = open(os.path.join(REPO, "tooling/internal/cpp/include/detail/binary/coded_stream.h")).read()
     py = open(os.path.join(REPO, "tooling/internal/python/static_files/_binary.py")).read()
@@ -151,7 +158,7 @@ def regenerate(ctx):
           "Definition cpp_magic : list N := [%s]." % ";".join(str(ord(c)) for c in re.findall(r"'(.)'", rx(r"MAGIC_BYTES = \{([^}]*)\}", hd, "cpp magic"))),
           ""]
     text = "\n".join(L)
-    text = text.replace("From Coq Require Import NArith.", "From Coq Require Import NArith List.\nImport ListNotations.")
+    text = text.replace("From Coq Require Import NArith.", "From Coq Require Import NArith List String.\nImport ListNotations.")
     path = os.path.join(COQ, "Gen", "Tables.v")
     old = open(path).read() if os.path.exists(path) else None
     if old != text:
